@@ -315,7 +315,7 @@ var knownRespHeader = map[string]bool{"set-cookie": true, "location": true, "lin
 	"content-disposition": true, "vary": true, "x-inj": true, "x-rid": true, "content-length": true, "date": true, "server": true,
 	"x-content-type-options": true, "connection": true, "x-is-head": true, "etag": true, "last-modified": true, "x-outcome": true, "x-multi": true,
 	// set by fiber / fasthttp themselves on some paths
-	"allow": true, "transfer-encoding": true, "content-encoding": true, "accept-ranges": true, "content-range": true, "trailer": true, "cache-control": true}
+	"allow": true, "transfer-encoding": true, "content-encoding": true, "accept-ranges": true, "content-range": true, "trailer": true, "cache-control": true, "x-want-body": true}
 
 func isToken(b []byte) bool {
 	if len(b) == 0 {
